@@ -730,11 +730,18 @@ def compare(case, impl, model):
                 # rows whose terms are all at rounding level (a basis function without support on the samples and a
                 # vanishing penalty term) are judged against the size of the whole system
                 tot = max(sum(abs(x) for x in r_) + abs(bq[k]) for k, r_ in enumerate(rows_))
+                # pinv on an ill-conditioned normal matrix (tiny/huge penalty, more functions than samples) is not
+                # backward stable to 1e-7: the residual tolerance is conditioned on the system
+                try:
+                    cnd = float(np.linalg.cond(np.array([[float(Aq[k][l] + lam * int(P[k][l])) for l in range(K)] for k in range(K)])))
+                except Exception:
+                    cnd = float("inf")
+                rtol_ = Fraction(min(1e-3, max(1e-7, 1e-12 * cnd))) if math.isfinite(cnd) else Fraction(1, 1000)
                 for k in range(K):
                     terms = rows_[k]
                     res = sum(terms) - bq[k]
                     sc = sum(abs(x) for x in terms) + abs(bq[k]) + Fraction(1, 10**5) * tot + Fraction(1, 10**200)
-                    if abs(res) > Fraction(1, 10**7) * sc:
+                    if abs(res) > rtol_ * sc:
                         ds.append(f"P-spline[{e}] curve {i}: coefficients do not solve the model's normal equations (row {k}: residual {float(res):.3g}, scale {float(sc):.3g})")
                         break
                 if ds:
